@@ -885,7 +885,7 @@ end refine
 end C20
 
 /-- the flat class hierarchy (no subclassing) used by the concrete examples -/
-def C20.flatTypes : TyRel := ⟨fun a b => a == b⟩
+@[instance_reducible] def C20.flatTypes : TyRel := ⟨fun a b => a == b⟩
 
 section collthms
 variable {N : Type} [DecidableEq N] [TyRel]
@@ -1064,13 +1064,18 @@ def C20.targets : Op N → List Nat
 
 omit [DecidableEq N] [TyRel] in
 theorem C20.normIdx_lt (len : Nat) (i : Int) (p : Nat) (h : normIdx len i = some p) : p < len := by
-  unfold normIdx at h
-  simp only at h
-  split at h
-  · rename_i hc
-    simp only [Option.some.injEq] at h
-    omega
-  · cases h
+  simp only [normIdx] at h
+  split_ifs at h with h1 h2 h2 <;> simp at h <;> omega
+
+omit [DecidableEq N] in
+theorem C20.checkSeq_error (ty : Nat) (os : List (Obj N)) (e : Err) (h : checkSeq ty os = .error e) :
+    e = .typeError := by
+  cases os with
+  | nil => simp [checkSeq] at h; exact h.symm
+  | cons o t =>
+    simp only [checkSeq] at h
+    split_ifs at h
+    simp at h; exact h.symm
 
 /-- **totality**: `badTarget` is an error of the model only — an operation on existing collections
 never produces it (it returns, or raises one of the Python exceptions). -/
@@ -1081,50 +1086,54 @@ theorem c20_no_bad_target (w : World N) (op : Op N) (hv : ∀ j ∈ C20.targets 
   cases op with
   | addObj j o =>
     obtain ⟨c, hc⟩ := get j (hv j (by simp [C20.targets]))
-    simp only [step, stepWith, plan, C20.view_getElem?, hc, Option.map_some, checkObj]
-    split <;> simp [Except.map, applyActWith, hc]
+    by_cases hs : TyRel.sub o.ty c.ty = true <;>
+      simp [step, stepWith, plan, C20.view_getElem?, hc, checkObj, hs, Except.map, applyActWith]
   | addColl j k =>
     obtain ⟨c, hc⟩ := get j (hv j (by simp [C20.targets]))
     obtain ⟨d, hd⟩ := get k (hv k (by simp [C20.targets]))
-    simp only [step, stepWith, plan, C20.view_getElem?, hc, hd, Option.map_some]
-    split <;> simp [applyActWith, hc]
+    by_cases hs : TyRel.sub d.ty c.ty = true <;>
+      simp [step, stepWith, plan, C20.view_getElem?, hc, hd, hs, applyActWith]
   | addSeq j os =>
     obtain ⟨c, hc⟩ := get j (hv j (by simp [C20.targets]))
-    simp only [step, stepWith, plan, C20.view_getElem?, hc, Option.map_some]
-    cases hck : checkSeq c.ty os <;> simp [Except.map, applyActWith, hc]
+    cases hck : checkSeq c.ty os with
+    | error e =>
+      have := C20.checkSeq_error _ _ _ hck
+      simp [step, stepWith, plan, C20.view_getElem?, hc, hck, Except.map, this]
+    | ok xs => simp [step, stepWith, plan, C20.view_getElem?, hc, hck, Except.map, applyActWith]
   | pop j i =>
     obtain ⟨c, hc⟩ := get j (hv j (by simp [C20.targets]))
-    simp only [step, stepWith, plan, C20.view_getElem?, hc, Option.map_some]
     cases hn : normIdx c.objects.length (i.getD ((c.objects.length : Int) - 1)) with
-    | none => simp
+    | none => simp [step, stepWith, plan, C20.view_getElem?, hc, hn]
     | some p =>
       have hp := C20.normIdx_lt _ _ _ hn
-      simp [applyActWith, hc, List.getElem?_eq_getElem hp]
+      simp [step, stepWith, plan, C20.view_getElem?, hc, hn, applyActWith, List.getElem?_eq_getElem hp]
   | popName j n =>
     obtain ⟨c, hc⟩ := get j (hv j (by simp [C20.targets]))
-    simp only [step, stepWith, plan, C20.view_getElem?, hc, Option.map_some]
     cases hl : lookupIdx w j n with
-    | none => simp
+    | none => simp [step, stepWith, plan, C20.view_getElem?, hc, hl]
     | some p =>
       by_cases hp : p < c.objects.length
-      · simp [hp, applyActWith, hc, List.getElem?_eq_getElem hp]
-      · simp [hp]
+      · simp [step, stepWith, plan, C20.view_getElem?, hc, hl, hp, applyActWith, List.getElem?_eq_getElem hp]
+      · simp [step, stepWith, plan, C20.view_getElem?, hc, hl, hp]
   | popBad j =>
     obtain ⟨c, hc⟩ := get j (hv j (by simp [C20.targets]))
     simp [step, stepWith, plan, C20.view_getElem?, hc]
   | plusObj j o =>
     obtain ⟨c, hc⟩ := get j (hv j (by simp [C20.targets]))
-    simp only [step, stepWith, plan, C20.view_getElem?, hc, Option.map_some, checkObj]
-    split <;> simp [Except.map, applyActWith, hc]
+    by_cases hs : TyRel.sub o.ty c.ty = true <;>
+      simp [step, stepWith, plan, C20.view_getElem?, hc, checkObj, hs, Except.map, applyActWith]
   | plusColl j k =>
     obtain ⟨c, hc⟩ := get j (hv j (by simp [C20.targets]))
     obtain ⟨d, hd⟩ := get k (hv k (by simp [C20.targets]))
-    simp only [step, stepWith, plan, C20.view_getElem?, hc, hd, Option.map_some]
-    split <;> simp [applyActWith, hc]
+    by_cases hs : TyRel.sub d.ty c.ty = true <;>
+      simp [step, stepWith, plan, C20.view_getElem?, hc, hd, hs, applyActWith]
   | plusSeq j os =>
     obtain ⟨c, hc⟩ := get j (hv j (by simp [C20.targets]))
-    simp only [step, stepWith, plan, C20.view_getElem?, hc, Option.map_some]
-    cases hck : checkSeq c.ty os <;> simp [Except.map, applyActWith, hc]
+    cases hck : checkSeq c.ty os with
+    | error e =>
+      have := C20.checkSeq_error _ _ _ hck
+      simp [step, stepWith, plan, C20.view_getElem?, hc, hck, Except.map, this]
+    | ok xs => simp [step, stepWith, plan, C20.view_getElem?, hc, hck, Except.map, applyActWith]
 
 omit [DecidableEq N] [TyRel] in
 /-- **positional access** `c[i]`: position `p` is reached by `p` and by `p - len(c)`; indices outside
@@ -1154,11 +1163,8 @@ theorem c20_getitem_idx (c : C N) :
     simp [getItemIdx, h1, h2, hp]
   · intro i hi
     have : normIdx c.objects.length i = none := by
-      unfold normIdx
-      simp only
-      split
-      · rename_i hc; split at hc <;> omega
-      · rfl
+      simp only [normIdx]
+      split_ifs with h1 h2 h2 <;> first | rfl | (exfalso; omega)
     simp [getItemIdx, this]
 
 /-- **`c[key]`** dispatches on the kind of key; with distinct names the object at position `p` is
@@ -1221,7 +1227,8 @@ theorem C20.addEach_spec (os : List (Obj N)) : ∀ (w w' : World N) (j : Nat) (c
     refine ⟨hw, ?_, by simp⟩
     have : (view w)[j]? = some (c.ty, c.objects) := by rw [C20.view_getElem?, hc]; rfl
     rw [List.append_nil]
-    exact (List.set_getElem?_self this).symm
+    obtain ⟨hlt, hv⟩ := List.getElem?_eq_some_iff.mp this
+    rw [← hv, List.set_getElem_self hlt]
   | cons o t ih =>
     intro w w' j c hw hc h
     have hr := C20.step_refines w hw (.addObj j o)
